@@ -382,6 +382,52 @@ pub fn strategy() -> BoxedStrategy<Case> {
         .boxed()
 }
 
+
+/// curves that overshoot: all control points (nearly) on the line through the end points, one of them beyond an
+/// end, so that the curve runs past that end, turns on the spot and comes back (a "flat" curve by the distance of
+/// its control points to the chord *line*, not to the chord). The stroke covers the whole run, up to the turning
+/// point. Round and bevel joins, any cap, widths of 2..12 px.
+pub fn overshoot_strategy() -> BoxedStrategy<Case> {
+    (28i32..=44, 28i32..=44)
+        .prop_flat_map(|(w, h)| {
+            let ext = w.max(h) as f32;
+            let c = move || 2.0f32..ext - 2.0;
+            let f = prop_oneof![1.3f32..3.0, -2.0f32..-0.3];
+            (Just((w, h)), (c(), c(), c(), c()), f, any::<bool>(), 0u8..3, 2.0f32..12.0, (0u8..3, 1u8..3), prop::option::of((c(), c())), stroke_xf(true), any::<bool>())
+        })
+        .prop_map(|((w, h), (ax, ay, bx, by), f, cubic, axis, width, (cap, join), tail, xf, closed)| {
+            let (bx, by) = match axis {
+                0 => (bx, ay),             // exactly horizontal
+                1 => (ax, by),             // exactly vertical
+                _ => (bx, by),             // any direction (collinear up to f32 rounding)
+            };
+            let (bx, by) = if (bx - ax).abs() + (by - ay).abs() < 6.0 { (ax + 7.0, ay + if axis == 0 { 0.0 } else { 5.0 }) } else { (bx, by) };
+            let at = |t: f32| (ax + (bx - ax) * t, ay + (by - ay) * t);
+            let mut ops = vec![POp::M(ax, ay)];
+            if cubic {
+                // both control points beyond the same end, or one on each side
+                let (p, q) = (at(f), at(if f > 0.0 { f * 0.8 + 0.4 } else { f * 0.5 }));
+                ops.push(POp::C(p.0, p.1, q.0, q.1, bx, by));
+            } else {
+                let p = at(f);
+                ops.push(POp::Q(p.0, p.1, bx, by));
+            }
+            if let Some((x, y)) = tail {
+                ops.push(POp::L(x, y));
+                if closed {
+                    ops.push(POp::Z);
+                }
+            }
+            let mut width = width;
+            let s = smax(&xf) as f32;
+            if width * s > 16.0 {
+                width = 16.0 / s;
+            }
+            Case { w, h, path: PathSpec { ops, evenodd: false }, style: StyleSpec { width: Fl(width), cap, join, miter: Fl(4.0), dash: vec![], offset: Fl(0.0) }, xf }
+        })
+        .boxed()
+}
+
 /// wide strokes through shallow bends: the join wedge on the outer side of a vertex is as wide as
 /// (half width) x (turning angle), so it only becomes visible against the margin when the stroke is tens of
 /// pixels wide; the part `region` (device width <= 16) cannot see a wedge that is missing or on the wrong side
@@ -438,7 +484,7 @@ pub fn property(ctx: &Ctx) -> Property {
             "threshold decisions (miter limit within 1e-3, turning angle within 1e-3 of 0/180 degrees) are taken the smaller way for 'must paint' and the larger way for 'must stay'",
             "curves: pieces are built on an f64 flattening accurate to 0.01 px; the 1 px margin absorbs raqote's 0.1/sqrt(det) flattening",
         ],
-        parts: vec![part("region", 8_000, 250_000, strategy, move |c| check(c, seams_open)), part("wide", 3_000, 100_000, wide_strategy, move |c| check(c, seams_open))],
+        parts: vec![part("region", 8_000, 250_000, strategy, move |c| check(c, seams_open)), part("wide", 3_000, 100_000, wide_strategy, move |c| check(c, seams_open)), part("overshoot", 1_500, 50_000, overshoot_strategy, move |c| check(c, seams_open))],
         min_class_fraction: vec![
             ("region", "join-visible", 0.2),
             ("region", "cap-visible", 0.15),
